@@ -49,6 +49,7 @@ def step (s : DState) (line : String) : DState × String :=
   | some ("k7tags", _) => (s, k7tags toks)
   | some ("k7reuse", _) => (s, k7reuse toks)
   | some ("k7scen", _) => (s, k7scen toks)
+  | some ("kmutual", _) => (s, kmutual toks)
   | some ("k7rand", _) => (s, k7rand toks)
   | some ("k7storm", _) => (s, k7storm toks)
   | some ("kpool", _) => (s, kpool toks)
